@@ -437,7 +437,13 @@ func vRun(c *vCase) any {
 			return r
 		}
 		exec = func(th *vThread, op vOp) [2]int { return [2]int{do(th.id, op), 0} }
-		drain = func() bool { do(1000, vOp{Code: 2}); return true }
+		drain = func() bool {
+			if c.N == 0 {
+				return false // nothing can release a Borrow blocked on a limit of 0
+			}
+			do(1000, vOp{Code: 2})
+			return true
+		}
 	case "ref":
 		var r *RefResource
 		ran := map[int]bool{}
@@ -973,11 +979,19 @@ func vRun(c *vCase) any {
 	close(quit)
 	done := make(chan struct{})
 	go func() { wg.Wait(); close(done) }()
+	env.mu.Lock()
+	wait := 2 * time.Second
+	if env.stuck != 0 {
+		wait = 50 * time.Millisecond // somebody is known to be blocked for good: do not wait for him
+	}
+	env.mu.Unlock()
 	select {
 	case <-done:
-	case <-time.After(2 * time.Second):
+	case <-time.After(wait):
 		env.mu.Lock()
-		env.stuck = -1
+		if env.stuck == 0 {
+			env.stuck = -1
+		}
 		env.mu.Unlock()
 	}
 
